@@ -263,6 +263,30 @@ class Executor:
                 e = s.exc.func if isinstance(s.exc, ast.Call) else s.exc
                 what = self.p.resolve_expr(func.module, e, func) or short(e)
             raise _Raise(what, s)
+        if isinstance(s, ast.Delete) and all(isinstance(t, ast.Name) for t in s.targets):
+            for t in s.targets:     # `del local`: the name is gone, nothing else happens
+                if t.id not in env:
+                    raise UnknownIdiom('%s: del of the unbound name %s' % (func.qual, t.id))
+                del env[t.id]
+            return
+        if isinstance(s, ast.Assert):
+            # normal (non -O) semantics: a false assertion leaves the function by raising
+            if not self.truthy_expr(s.test, env, func, depth):
+                raise _Raise('builtins.AssertionError', s)
+            return
+        if isinstance(s, ast.For) and isinstance(s.target, ast.Tuple) and all(isinstance(t, ast.Name) for t in s.target.elts) and not s.orelse \
+                and isinstance(s.iter, (ast.Tuple, ast.List)) \
+                and all(isinstance(e, (ast.Tuple, ast.List)) and len(e.elts) == len(s.target.elts) and not any(isinstance(x, ast.Starred) for x in e.elts)
+                        for e in s.iter.elts) \
+                and not any(isinstance(x, (ast.Break, ast.Continue)) for b in s.body for x in ast.walk(b)):
+            # a loop over a literal sequence of literal tuples (``for name, value in (('A', a), ('B', b)):``) is unrolled; every row is
+            # evaluated first, as the display is
+            rows = [[self.eval(x, env, func, depth) for x in e.elts] for e in s.iter.elts]
+            for row in rows:
+                for t, v in zip(s.target.elts, row):
+                    env[t.id] = v
+                self._block(s.body, env, func, depth)
+            return
         if isinstance(s, ast.For) and isinstance(s.target, ast.Name) and not s.orelse \
                 and not any(isinstance(x, (ast.Break, ast.Continue)) for b in s.body for x in ast.walk(b)):
             # a loop over a constant tuple/list of strings (e.g. header names to delete) is unrolled
@@ -423,6 +447,10 @@ class Executor:
             return ('call', 'fstring', tuple(self.eval(x.value, env, func, depth) for x in e.values if isinstance(x, ast.FormattedValue)))
         if isinstance(e, ast.Call):
             return self._call(e, env, func, depth)
+        if isinstance(e, ast.NamedExpr) and isinstance(e.target, ast.Name):
+            v = self.eval(e.value, env, func, depth)
+            env[e.target.id] = v
+            return v
         raise UnknownIdiom('%s: expression form %s (%s)' % (func.qual, type(e).__name__, short(e, 60)))
 
     # -------------------------------------------------------------- calls
@@ -442,55 +470,82 @@ class Executor:
         self.header_names.setdefault(name.lower(), name)
         return name.lower()
 
+    def _method_args(self, c: ast.Call, func, names):
+        """positional-or-keyword arguments of a request/response accessor call, by the parameter names of its public signature"""
+        if any(isinstance(a, ast.Starred) for a in c.args) or any(k.arg is None for k in c.keywords) or len(c.args) > len(names):
+            raise UnknownIdiom('%s: arguments of %s' % (func.qual, short(c)))
+        out = dict(zip(names, c.args))
+        for k in c.keywords:
+            if k.arg not in names or k.arg in out:
+                raise UnknownIdiom('%s: keyword %s in %s' % (func.qual, k.arg, short(c)))
+            out[k.arg] = k.value
+        return out
+
     def _call(self, c: ast.Call, env, func: Func, depth: int):
         f = c.func
+        base = attr = None
+        is_param = False
         if isinstance(f, ast.Attribute) and isinstance(f.value, ast.Name):
-            base = f.value.id
+            base, attr = f.value.id, f.attr
             is_param = env.get(base) == ('sym', 'param:' + base)
+        elif isinstance(f, ast.Name) and isinstance(env.get(f.id), tuple) and env[f.id][0] == 'sym' and env[f.id][1].startswith(('req.', 'resp.')):
+            # a local bound to a bound method of the request / response object: ``set_header = resp.set_header``
+            kind, attr = env[f.id][1].split('.', 1)
+            base = self.req if kind == 'req' else self.resp
+            is_param = base is not None
+        if base is not None and attr is not None:
             if base == self.req and self.req is not None and is_param:
-                if f.attr == 'get_header':
-                    name = self._header_name(c, func, env)
+                if attr == 'get_header':
+                    a = self._method_args(c, func, ['name', 'required', 'default'])
+                    if 'name' not in a:
+                        raise UnknownIdiom('%s: %s' % (func.qual, short(c)))
+                    name = self._header_name(ast.Call(func=c.func, args=[a['name']], keywords=[]), func, env)
                     default = None
-                    if len(c.args) >= 2:
-                        raise UnknownIdiom('%s: positional `required` argument in %s' % (func.qual, short(c)))
-                    for k in c.keywords:
-                        if k.arg == 'default':
-                            default = self.eval(k.value, env, func, depth)
-                        elif k.arg == 'required':
-                            raise UnknownIdiom('%s: required= in %s' % (func.qual, short(c)))
+                    if 'required' in a:
+                        raise UnknownIdiom('%s: `required` argument in %s' % (func.qual, short(c)))
+                    if 'default' in a:
+                        default = self.eval(a['default'], env, func, depth)
                     if default is not None and self.is_none_static(default):
                         default = None
                     return ('reqhdr', name, default)
                 raise UnknownIdiom('%s: request method call %s' % (func.qual, short(c)))
             if base == self.resp and self.resp is not None and is_param:
-                if f.attr == 'get_header':
-                    name = self._header_name(c, func, env)
-                    if len(c.args) > 1 or c.keywords:
+                if attr == 'get_header':
+                    a = self._method_args(c, func, ['name', 'default'])
+                    if 'name' not in a or 'default' in a:
                         raise UnknownIdiom('%s: default in %s' % (func.qual, short(c)))
+                    name = self._header_name(ast.Call(func=c.func, args=[a['name']], keywords=[]), func, env)
                     st = self.leaf.header_state(name)
                     if st[0] == 'pre':
                         return ('prehdr', name)
                     if st[0] == 'set':
                         return st[1]
                     return NONE
-                if f.attr in HEADER_SET:
-                    name = self._header_name(c, func, env)
-                    if len(c.args) != 2 or c.keywords:
+                if attr in HEADER_SET:
+                    a = self._method_args(c, func, ['name', 'value'])
+                    if len(a) != 2:
                         raise UnknownIdiom('%s: %s' % (func.qual, short(c)))
-                    v = self.eval(c.args[1], env, func, depth)
+                    name = self._header_name(ast.Call(func=c.func, args=[a['name']], keywords=[]), func, env)
+                    v = self.eval(a['value'], env, func, depth)
                     self.leaf.store[name] = ('set', v)
                     self.leaf.events.append(('set', name, v, c, func))
                     return NONE
-                if f.attr == 'delete_header':
-                    name = self._header_name(c, func, env)
+                if attr == 'delete_header':
+                    a = self._method_args(c, func, ['name'])
+                    if 'name' not in a:
+                        raise UnknownIdiom('%s: %s' % (func.qual, short(c)))
+                    name = self._header_name(ast.Call(func=c.func, args=[a['name']], keywords=[]), func, env)
                     self.leaf.store[name] = ('del',)
                     self.leaf.events.append(('del', name, None, c, func))
                     return NONE
                 raise UnknownIdiom('%s: response method call %s' % (func.qual, short(c)))
-            if base == self.self_name and is_param:
+            if base == self.self_name and is_param and isinstance(f, ast.Attribute):
                 target = self.p.resolve_callable(func, f)
                 if isinstance(target, Func):
-                    return self._inline(target, c, env, func, depth, bound_self=True)
+                    if any(d == 'classmethod' or d.endswith('.classmethod') for d in target.decorators):
+                        raise UnknownIdiom('%s: class method %s' % (func.qual, short(c)))
+                    static = any(d == 'staticmethod' or d.endswith('.staticmethod') for d in target.decorators)
+                    return self._inline(target, c, env, func, depth, bound_self=not static)
                 raise UnknownIdiom('%s: call %s cannot be resolved' % (func.qual, short(c)))
         # a value escaping into an un-analysed callee
         for a in list(c.args) + [k.value for k in c.keywords]:
@@ -518,6 +573,9 @@ class Executor:
             return ('call', f.attr, (recv,) + tuple(self.eval(a, env, func, depth) for a in c.args))
         if self._is_log_call(c, env, func):
             return NONE
+        if isinstance(f, (ast.Name, ast.Attribute)) and len(c.args) == 2 and not c.keywords and not (isinstance(f, ast.Name) and f.id in env) \
+                and self.p.resolve_expr(func.module, f, func) == 'typing.cast':
+            return self.eval(c.args[1], env, func, depth)     # cast(T, x) is x
         target = self.p.resolve_callable(func, f)
         if isinstance(target, Func) and not isinstance(f, ast.Attribute):
             return self._inline(target, c, env, func, depth, bound_self=False)
